@@ -2,7 +2,8 @@
 //! Everything here that computes is the crate's code: seeding, the dual arithmetic inside the closure (the
 //! polynomial is evaluated with `*` and `+` on the numbers the driver hands over), extraction, orientation.
 
-use crate::exact::{canon, eval_generic, eval_inexact, Poly};
+use crate::exact::{canon, eval_cancel, eval_generic, eval_inexact, Poly};
+use crate::rng::Rng;
 use nalgebra::allocator::Allocator;
 use nalgebra::{Const, DefaultAllocator, Dim, Dyn, OMatrix, OVector};
 use num_dual::*;
@@ -36,11 +37,13 @@ pub struct Ctx {
     pub token: u64,
     pub calls: Cell<u32>,
     pub inner: RefCell<Option<Result<Vec<Part>, Token>>>,
+    /// hand-built results: what the closure put into the number it returned, in the order the driver owes it
+    pub built: RefCell<Option<Vec<Part>>>,
 }
 
 impl Ctx {
     pub fn new(plan: Plan, token: u64) -> Ctx {
-        Ctx { plan, token, calls: Cell::new(0), inner: RefCell::new(None) }
+        Ctx { plan, token, calls: Cell::new(0), inner: RefCell::new(None), built: RefCell::new(None) }
     }
 }
 
@@ -58,6 +61,12 @@ pub struct Fx {
     pub style: u64,
     /// second polynomial per output: when present the closure evaluates the inexact family (exact.rs: eval_inexact)
     pub inexact: Option<Vec<Poly>>,
+    /// with `inexact`: the function whose higher derivatives cancel analytically (exact.rs: eval_cancel)
+    pub cancel: bool,
+    /// when present the closure does not compute at all: it returns a number it builds by hand with the type's `new`
+    /// from seeded parts, any derivative part present or absent independently of the others (a user-defined
+    /// primitive with hand-written derivatives does that); what the driver owes is exactly those parts
+    pub hand: Option<u64>,
 }
 
 /// x * 2^k, by the scalar multiplication of the number type
@@ -126,6 +135,7 @@ impl Subj<f64> for DualDVec64 {
 /// what the closure computes for output `idx`
 fn evaluate<X: DualNum<F> + Clone, F: DualNumFloat>(fx: &Fx, idx: usize, vars: &[X]) -> X {
     let v = match &fx.inexact {
+        Some(q) if fx.cancel => eval_cancel(&fx.polys[idx], &q[idx], vars, fx.style),
         Some(q) => eval_inexact(&fx.polys[idx], &q[idx], vars, fx.style),
         None => eval_generic(&fx.polys[idx], vars, fx.style),
     };
@@ -187,6 +197,52 @@ where
     OVector::<T, D>::from_fn_generic(D::from_usize(a.len()), Const::<1>, |i, _| T::make(a[i], b[i]))
 }
 
+
+// ---- hand-built results -------------------------------------------------------------------------------------
+
+fn hv<T: Subj<F>, F>(r: &mut Rng) -> T {
+    let a = (r.below(17) as f64 - 8.0) / 2.0;
+    let b = if r.chance(300) { [0.0, 0.0] } else { [(r.below(17) as f64 - 8.0) / 2.0, (r.below(17) as f64 - 8.0) / 2.0] };
+    T::make(a, b)
+}
+/// a derivative part, present (any values, zeros included) or absent, and its entries row by row (zeros when absent)
+fn hmat<T: Subj<F>, F: DualNumFloat, R: Dim, C: Dim>(r: &mut Rng, nr: usize, nc: usize, symmetric: bool) -> (Derivative<T, F, R, C>, Vec<Part>)
+where
+    DefaultAllocator: Allocator<R, C>,
+{
+    if r.chance(400) {
+        return (Derivative::none(), vec![T::make(0.0, [0.0, 0.0]).part(); nr * nc]);
+    }
+    let zeros = r.chance(100);
+    let mut m = OMatrix::<T, R, C>::from_fn_generic(R::from_usize(nr), C::from_usize(nc), |_, _| if zeros { T::make(0.0, [0.0, 0.0]) } else { hv::<T, F>(r) });
+    if symmetric {
+        for i in 0..nr {
+            for j in 0..i {
+                m[(i, j)] = m[(j, i)].clone();
+            }
+        }
+    }
+    let mut parts = Vec::with_capacity(nr * nc);
+    for i in 0..nr {
+        for j in 0..nc {
+            parts.push(m[(i, j)].part());
+        }
+    }
+    (Derivative::some(m), parts)
+}
+fn vmark(n: usize) -> Part {
+    (SHAPE, Some(n as u64), None)
+}
+fn mmark(m: usize, n: usize) -> Part {
+    (SHAPE, Some(((m as u64) << 32) | n as u64), None)
+}
+/// k scalar parts
+fn hscalars<T: Subj<F>, F>(r: &mut Rng, k: usize) -> (Vec<T>, Vec<Part>) {
+    let v: Vec<T> = (0..k).map(|_| hv::<T, F>(r)).collect();
+    let p = v.iter().map(|x| x.part()).collect();
+    (v, p)
+}
+
 macro_rules! reenter_with {
     ($ctx:expr, $inner:expr, $call:expr) => {
         || {
@@ -203,26 +259,26 @@ macro_rules! reenter_with {
 
 pub fn first_derivative_case<T: Subj<F>, F: DualNumFloat>(fx: &Fx, inner: Option<&Fx>, fallible: bool, ctx: &Ctx) -> Result<Vec<Part>, Token> {
     let x = T::make(fx.a[0], fx.b[0]);
-    let body = |v: Dual<T, F>| behave(ctx, || evaluate(fx, 0, &[v.clone()]), reenter_with!(ctx, inner, |i, c| first_derivative_case::<T, F>(i, None, fallible, c)));
+    let body = |v: Dual<T, F>| behave(ctx, || match fx.hand { Some(h) => { let (t, p) = hscalars::<T, F>(&mut Rng::new(h), 2); *ctx.built.borrow_mut() = Some(p); Dual::new(t[0].clone(), t[1].clone()) } None => evaluate(fx, 0, &[v.clone()]) }, reenter_with!(ctx, inner, |i, c| first_derivative_case::<T, F>(i, None, fallible, c)));
     let r = if fallible { try_first_derivative(body, x)? } else { first_derivative(|v| infallible(body(v)), x) };
     Ok(vec![r.0.part(), r.1.part()])
 }
 pub fn second_derivative_case<T: Subj<F>, F: DualNumFloat>(fx: &Fx, inner: Option<&Fx>, fallible: bool, ctx: &Ctx) -> Result<Vec<Part>, Token> {
     let x = T::make(fx.a[0], fx.b[0]);
-    let body = |v: Dual2<T, F>| behave(ctx, || evaluate(fx, 0, &[v.clone()]), reenter_with!(ctx, inner, |i, c| second_derivative_case::<T, F>(i, None, fallible, c)));
+    let body = |v: Dual2<T, F>| behave(ctx, || match fx.hand { Some(h) => { let (t, p) = hscalars::<T, F>(&mut Rng::new(h), 3); *ctx.built.borrow_mut() = Some(p); Dual2::new(t[0].clone(), t[1].clone(), t[2].clone()) } None => evaluate(fx, 0, &[v.clone()]) }, reenter_with!(ctx, inner, |i, c| second_derivative_case::<T, F>(i, None, fallible, c)));
     let r = if fallible { try_second_derivative(body, x)? } else { second_derivative(|v| infallible(body(v)), x) };
     Ok(vec![r.0.part(), r.1.part(), r.2.part()])
 }
 pub fn third_derivative_case<T: Subj<F>, F: DualNumFloat>(fx: &Fx, inner: Option<&Fx>, fallible: bool, ctx: &Ctx) -> Result<Vec<Part>, Token> {
     let x = T::make(fx.a[0], fx.b[0]);
-    let body = |v: Dual3<T, F>| behave(ctx, || evaluate(fx, 0, &[v.clone()]), reenter_with!(ctx, inner, |i, c| third_derivative_case::<T, F>(i, None, fallible, c)));
+    let body = |v: Dual3<T, F>| behave(ctx, || match fx.hand { Some(h) => { let (t, p) = hscalars::<T, F>(&mut Rng::new(h), 4); *ctx.built.borrow_mut() = Some(p); Dual3::new(t[0].clone(), t[1].clone(), t[2].clone(), t[3].clone()) } None => evaluate(fx, 0, &[v.clone()]) }, reenter_with!(ctx, inner, |i, c| third_derivative_case::<T, F>(i, None, fallible, c)));
     let r = if fallible { try_third_derivative(body, x)? } else { third_derivative(|v| infallible(body(v)), x) };
     Ok(vec![r.0.part(), r.1.part(), r.2.part(), r.3.part()])
 }
 pub fn second_partial_derivative_case<T: Subj<F>, F: DualNumFloat>(fx: &Fx, inner: Option<&Fx>, fallible: bool, ctx: &Ctx) -> Result<Vec<Part>, Token> {
     let (x, y) = (T::make(fx.a[0], fx.b[0]), T::make(fx.a[1], fx.b[1]));
     let body = |u: HyperDual<T, F>, v: HyperDual<T, F>| {
-        behave(ctx, || evaluate(fx, 0, &[u.clone(), v.clone()]), reenter_with!(ctx, inner, |i, c| second_partial_derivative_case::<T, F>(i, None, fallible, c)))
+        behave(ctx, || match fx.hand { Some(h) => { let (t, p) = hscalars::<T, F>(&mut Rng::new(h), 4); *ctx.built.borrow_mut() = Some(p); HyperDual::new(t[0].clone(), t[1].clone(), t[2].clone(), t[3].clone()) } None => evaluate(fx, 0, &[u.clone(), v.clone()]) }, reenter_with!(ctx, inner, |i, c| second_partial_derivative_case::<T, F>(i, None, fallible, c)))
     };
     let r = if fallible { try_second_partial_derivative(body, x, y)? } else { second_partial_derivative(|u, v| infallible(body(u, v)), x, y) };
     Ok(vec![r.0.part(), r.1.part(), r.2.part(), r.3.part()])
@@ -230,7 +286,7 @@ pub fn second_partial_derivative_case<T: Subj<F>, F: DualNumFloat>(fx: &Fx, inne
 pub fn third_partial_derivative_case<T: Subj<F>, F: DualNumFloat>(fx: &Fx, inner: Option<&Fx>, fallible: bool, ctx: &Ctx) -> Result<Vec<Part>, Token> {
     let (x, y, z) = (T::make(fx.a[0], fx.b[0]), T::make(fx.a[1], fx.b[1]), T::make(fx.a[2], fx.b[2]));
     let body = |u: HyperHyperDual<T, F>, v: HyperHyperDual<T, F>, w: HyperHyperDual<T, F>| {
-        behave(ctx, || evaluate(fx, 0, &[u.clone(), v.clone(), w.clone()]), reenter_with!(ctx, inner, |i, c| third_partial_derivative_case::<T, F>(i, None, fallible, c)))
+        behave(ctx, || match fx.hand { Some(h) => { let (t, p) = hscalars::<T, F>(&mut Rng::new(h), 8); *ctx.built.borrow_mut() = Some(p); HyperHyperDual::new(t[0].clone(), t[1].clone(), t[2].clone(), t[3].clone(), t[4].clone(), t[5].clone(), t[6].clone(), t[7].clone()) } None => evaluate(fx, 0, &[u.clone(), v.clone(), w.clone()]) }, reenter_with!(ctx, inner, |i, c| third_partial_derivative_case::<T, F>(i, None, fallible, c)))
     };
     let r = if fallible { try_third_partial_derivative(body, x, y, z)? } else { third_partial_derivative(|u, v, w| infallible(body(u, v, w)), x, y, z) };
     Ok(vec![r.0.part(), r.1.part(), r.2.part(), r.3.part(), r.4.part(), r.5.part(), r.6.part(), r.7.part()])
@@ -238,7 +294,7 @@ pub fn third_partial_derivative_case<T: Subj<F>, F: DualNumFloat>(fx: &Fx, inner
 pub fn third_partial_derivative_vec_case<T: Subj<F>, F: DualNumFloat>(fx: &Fx, inner: Option<&Fx>, fallible: bool, ctx: &Ctx) -> Result<Vec<Part>, Token> {
     let x: Vec<T> = fx.a.iter().zip(&fx.b).map(|(a, b)| T::make(*a, *b)).collect();
     let [i, j, k] = fx.ijk;
-    let body = |v: &[HyperHyperDual<T, F>]| behave(ctx, || evaluate(fx, 0, v), reenter_with!(ctx, inner, |i2, c| third_partial_derivative_vec_case::<T, F>(i2, None, fallible, c)));
+    let body = |v: &[HyperHyperDual<T, F>]| behave(ctx, || match fx.hand { Some(h) => { let (t, p) = hscalars::<T, F>(&mut Rng::new(h), 8); *ctx.built.borrow_mut() = Some(p); HyperHyperDual::new(t[0].clone(), t[1].clone(), t[2].clone(), t[3].clone(), t[4].clone(), t[5].clone(), t[6].clone(), t[7].clone()) } None => evaluate(fx, 0, v) }, reenter_with!(ctx, inner, |i2, c| third_partial_derivative_vec_case::<T, F>(i2, None, fallible, c)));
     let r = if fallible { try_third_partial_derivative_vec(body, &x, i, j, k)? } else { third_partial_derivative_vec(|v| infallible(body(v)), &x, i, j, k) };
     Ok(vec![r.0.part(), r.1.part(), r.2.part(), r.3.part(), r.4.part(), r.5.part(), r.6.part(), r.7.part()])
 }
@@ -251,7 +307,23 @@ where
 {
     let x = mkvec::<T, F, D>(&fx.a, &fx.b);
     let body = |v: OVector<DualVec<T, F, D>, D>| {
-        behave(ctx, || evaluate(fx, 0, &v.iter().cloned().collect::<Vec<_>>()), reenter_with!(ctx, inner, |i, c| gradient_case::<T, F, D>(i, None, fallible, c)))
+        behave(
+            ctx,
+            || match fx.hand {
+                Some(h) => {
+                    let mut r = Rng::new(h);
+                    let n = fx.a.len();
+                    let re = hv::<T, F>(&mut r);
+                    let (eps, pe) = hmat::<T, F, D, nalgebra::U1>(&mut r, n, 1, false);
+                    let mut p = vec![re.part(), vmark(n)];
+                    p.extend(pe);
+                    *ctx.built.borrow_mut() = Some(p);
+                    DualVec::new(re, eps)
+                }
+                None => evaluate(fx, 0, &v.iter().cloned().collect::<Vec<_>>()),
+            },
+            reenter_with!(ctx, inner, |i, c| gradient_case::<T, F, D>(i, None, fallible, c)),
+        )
     };
     let r = if fallible { try_gradient(body, x)? } else { gradient(|v| infallible(body(v)), x) };
     let mut out = vec![r.0.part()];
@@ -264,7 +336,26 @@ where
 {
     let x = mkvec::<T, F, D>(&fx.a, &fx.b);
     let body = |v: OVector<Dual2Vec<T, F, D>, D>| {
-        behave(ctx, || evaluate(fx, 0, &v.iter().cloned().collect::<Vec<_>>()), reenter_with!(ctx, inner, |i, c| hessian_case::<T, F, D>(i, None, fallible, c)))
+        behave(
+            ctx,
+            || match fx.hand {
+                Some(h) => {
+                    let mut r = Rng::new(h);
+                    let n = fx.a.len();
+                    let re = hv::<T, F>(&mut r);
+                    let (v1, p1) = hmat::<T, F, nalgebra::U1, D>(&mut r, 1, n, false);
+                    let (v2, p2) = hmat::<T, F, D, D>(&mut r, n, n, true);
+                    let mut p = vec![re.part(), vmark(n)];
+                    p.extend(p1);
+                    p.push(mmark(n, n));
+                    p.extend(p2);
+                    *ctx.built.borrow_mut() = Some(p);
+                    Dual2Vec::new(re, v1, v2)
+                }
+                None => evaluate(fx, 0, &v.iter().cloned().collect::<Vec<_>>()),
+            },
+            reenter_with!(ctx, inner, |i, c| hessian_case::<T, F, D>(i, None, fallible, c)),
+        )
     };
     let r = if fallible { try_hessian(body, x)? } else { hessian(|v| infallible(body(v)), x) };
     let mut out = vec![r.0.part()];
@@ -282,9 +373,26 @@ where
     let body = |v: OVector<DualVec<T, F, N>, N>| {
         behave(
             ctx,
-            || {
-                let xs: Vec<_> = v.iter().cloned().collect();
-                OVector::<DualVec<T, F, N>, M>::from_fn_generic(M::from_usize(m), Const::<1>, |i, _| evaluate(fx, i, &xs))
+            || match fx.hand {
+                Some(h) => {
+                    let mut r = Rng::new(h);
+                    let n = fx.a.len();
+                    let (mut res, mut jac) = (vec![vmark(m)], vec![mmark(m, n)]);
+                    let out = OVector::<DualVec<T, F, N>, M>::from_fn_generic(M::from_usize(m), Const::<1>, |_, _| {
+                        let re = hv::<T, F>(&mut r);
+                        let (eps, pe) = hmat::<T, F, N, nalgebra::U1>(&mut r, n, 1, false);
+                        res.push(re.part());
+                        jac.extend(pe);
+                        DualVec::new(re, eps)
+                    });
+                    res.extend(jac);
+                    *ctx.built.borrow_mut() = Some(res);
+                    out
+                }
+                None => {
+                    let xs: Vec<_> = v.iter().cloned().collect();
+                    OVector::<DualVec<T, F, N>, M>::from_fn_generic(M::from_usize(m), Const::<1>, |i, _| evaluate(fx, i, &xs))
+                }
             },
             reenter_with!(ctx, inner, |i, c| jacobian_case::<T, F, M, N>(i, None, fallible, c)),
         )
@@ -306,7 +414,25 @@ where
     let body = |u: OVector<HyperDualVec<T, F, M, N>, M>, v: OVector<HyperDualVec<T, F, M, N>, N>| {
         behave(
             ctx,
-            || evaluate(fx, 0, &u.iter().chain(v.iter()).cloned().collect::<Vec<_>>()),
+            || match fx.hand {
+                Some(h) => {
+                    let mut r = Rng::new(h);
+                    let n = fx.a.len() - m;
+                    let re = hv::<T, F>(&mut r);
+                    let (e1, p1) = hmat::<T, F, M, nalgebra::U1>(&mut r, m, 1, false);
+                    let (e2, p2) = hmat::<T, F, nalgebra::U1, N>(&mut r, 1, n, false);
+                    let (e12, p12) = hmat::<T, F, M, N>(&mut r, m, n, false);
+                    let mut p = vec![re.part(), vmark(m)];
+                    p.extend(p1);
+                    p.push(vmark(n));
+                    p.extend(p2);
+                    p.push(mmark(m, n));
+                    p.extend(p12);
+                    *ctx.built.borrow_mut() = Some(p);
+                    HyperDualVec::new(re, e1, e2, e12)
+                }
+                None => evaluate(fx, 0, &u.iter().chain(v.iter()).cloned().collect::<Vec<_>>()),
+            },
             reenter_with!(ctx, inner, |i, c| partial_hessian_case::<T, F, M, N>(i, None, fallible, c)),
         )
     };
